@@ -295,13 +295,24 @@ func TestC03(t *testing.T) {
 	c.Assume("the wire model (harness/spec) and the generator's knowledge of what each constructor denotes (e.g. NewVlanIdField(v) denotes OFPVID_PRESENT|v) are mine",
 		"a flow-mod/group-mod delete denotes a message without instructions/buckets (OF1.3.5: ignored for delete; the library's own size function excludes them)")
 	regressC03(t, c)
-	rapid.Check(t, func(rt *rapid.T) {
+	rapid.Check(t, c03Prop(c))
+}
+
+func c03Prop(c *ev.Collector) func(rt *rapid.T) {
+	return func(rt *rapid.T) {
 		c.Eval()
 		bm := buildMessage(rt, nil)
 		addLabels(c, bm.labels)
 		c.Label("kind=" + bm.kind)
 		checkLayout(c, rt, bm)
-	})
+	}
+}
+
+// FuzzC03: the same property driven by Go's coverage-guided fuzzer (rapid.MakeFuzz turns the fuzzer's
+// bytes into the generators' choices); thorough tier only.
+func FuzzC03(f *testing.F) {
+	c := ev.For("C03")
+	f.Fuzz(rapid.MakeFuzz(c03Prop(c)))
 }
 
 func checkLayout(c *ev.Collector, t ev.Fataler, bm builtMsg) {
